@@ -15,5 +15,6 @@ Check (C07_gate_errors : forall msg ty hd c1,
   (flag_qr (h_flags hd) = true -> flag_tc (h_flags hd) = true -> from_msg msg ty = Err MessageTruncated) /\
   (flag_qr (h_flags hd) = true -> flag_tc (h_flags hd) = false -> h_qd hd <> 1 ->
    from_msg msg ty = Err (BadQuestionsCount (h_qd hd)))).
-Check (C07_extended_rcode : forall base ext, base < 16 -> ext < 256 -> rcode_extended base ext = base + 16 * ext).
+Check (C07_extended_rcode : forall base ext, base < 16 -> ext < 256 ->
+  rcode_extended base ext = base + 16 * ext).
 Print Assumptions C07_gates_sound. Print Assumptions C07_gate_errors. Print Assumptions C07_extended_rcode.
